@@ -75,6 +75,7 @@ def run(ctx, chk):
     r5(ctx, chk)
     from .c08 import r5 as recovery_rule
     recovery_rule(ctx, chk, "C09.R6")
+    leap_direction_rule(ctx, chk, "C09.R7")
 
 
 def _positive_atoms(f, pol=True):
@@ -197,3 +198,68 @@ def _polarity_of(f, atom, pol=True):
         res = {_polarity_of(x, atom, pol) for x in f[1:]} - {None}
         return res.pop() if len(res) == 1 else None
     return None
+
+
+
+def leap_direction_rule(ctx, chk, rule):
+    """29 February without a year: the year is moved to a leap year in the direction of the preference.  The direction is spelled three
+    times on the way (preference -> next/previous helper -> `future` flag -> sign of the step) and the search starts strictly beside
+    the current year; the four spellings must agree."""
+    from ..core.ctx import conjuncts, enclosing_tests
+    ix = ctx.ix
+    f = ix.func("dateparser.parser:_parser._get_correct_leap_year")
+    pref = f.params()[1]
+    seen = {}
+    for r in [n for n in iter_own_nodes(f.node) if isinstance(n, ast.Return)]:
+        eqs = [ast.unparse(a) for t, pol in enclosing_tests(f.node, r) for a, p in conjuncts(t, pol) if p]
+        for want, helper in (("future", "get_next_leap_year"), ("past", "get_previous_leap_year")):
+            if any("".join(e.split()) in ("%s=='%s'" % (pref, want), "'%s'==%s" % (want, pref)) for e in eqs):
+                seen[want] = ast.unparse(r.value.func) if isinstance(r.value, ast.Call) else ast.unparse(r.value)
+                chk.ob(rule, "_get_correct_leap_year: '%s' -> %s" % (want, helper), seen[want] == helper, "returns %s" % seen[want],
+                       key={"function": f.key, "construct": "preference %s" % want}, file=f.file, function=f.qual, line=r.lineno)
+    chk.floor(rule + ".prefs", len(seen), 2, "preference branches of _get_correct_leap_year")
+    # closer-year default: compares (next - current) with (current - previous)
+    cmp_ = [n for n in iter_own_nodes(f.node) if isinstance(n, ast.Compare) and len(n.ops) == 1 and isinstance(n.left, ast.BinOp)]
+    for c in cmp_:
+        l, r_ = "".join(ast.unparse(c.left).split()), "".join(ast.unparse(c.comparators[0]).split())
+        cur = f.params()[2]
+        names = {x.id for x in ast.walk(c) if isinstance(x, ast.Name)} - {cur}
+        nxt = [n for n in names if "next" in n]
+        prv = [n for n in names if "prev" in n]
+        ok = bool(nxt and prv) and l == "%s-%s" % (nxt[0], cur) and r_ == "%s-%s" % (cur, prv[0]) and isinstance(c.ops[0], (ast.Lt, ast.LtE))
+        chk.ob(rule, "_get_correct_leap_year: without a preference the closer leap year is taken (distance ahead vs distance behind; a tie is not the property's business)", ok,
+               "compares `%s`" % ast.unparse(c), key={"function": f.key, "construct": "closer leap year"}, file=f.file, function=f.qual, line=c.lineno)
+    for helper, flag in (("get_next_leap_year", True), ("get_previous_leap_year", False)):
+        h = ix.func("dateparser.utils:" + helper)
+        calls = [n for n in iter_own_nodes(h.node) if isinstance(n, ast.Call) and ast.unparse(n.func) == "_get_leap_year"]
+        ok = len(calls) == 1
+        if ok:
+            c = calls[0]
+            v = {k.arg: k.value for k in c.keywords}.get("future", c.args[1] if len(c.args) > 1 else None)
+            ok = isinstance(v, ast.Constant) and v.value is flag and bool(c.args) and ast.unparse(c.args[0]) == h.params()[0]
+        chk.ob(rule, "%s searches with future=%s from the given year" % (helper, flag), ok, "", key={"function": h.key, "construct": "future flag"},
+               file=h.file, function=h.qual, line=h.node.lineno)
+    g = ix.func("dateparser.utils:_get_leap_year")
+    yr, fut = g.params()[:2]
+    steps = [n for n in iter_own_nodes(g.node) if isinstance(n, ast.Assign) and isinstance(n.value, ast.IfExp)]
+    ok_step = False
+    stepv = None
+    for st in steps:
+        e = st.value
+        t, a, b = e.test, e.body, e.orelse
+        while isinstance(t, ast.UnaryOp) and isinstance(t.op, ast.Not):
+            t, a, b = t.operand, b, a
+        def val(x):
+            if isinstance(x, ast.UnaryOp) and isinstance(x.op, ast.USub) and isinstance(x.operand, ast.Constant):
+                return -x.operand.value
+            return x.value if isinstance(x, ast.Constant) else None
+        if ast.unparse(t) == fut and val(a) == 1 and val(b) == -1:
+            ok_step, stepv = True, ast.unparse(st.targets[0])
+    chk.ob(rule, "_get_leap_year steps +1 year when future, -1 otherwise", ok_step, "", key={"function": g.key, "construct": "step sign"},
+           file=g.file, function=g.qual, line=g.node.lineno)
+    t_ = " ".join(ast.unparse(g.node).split())
+    import re as _re
+    m = _re.search(r"(\w+) = %s \+ %s while not calendar\.isleap\(\1\): \1 \+= %s return \1" % (yr, stepv or "step", stepv or "step"), t_)
+    chk.ob(rule, "_get_leap_year starts one step beside the given year and walks until calendar.isleap", m is not None,
+           "the search includes the given year itself, skips a year, or tests something else", key={"function": g.key, "construct": "search loop"},
+           file=g.file, function=g.qual, line=g.node.lineno)
